@@ -104,6 +104,39 @@ def _coeff_form(c, k):
     return c
 
 
+def swap_id(oid, ident):
+    """Renaming that makes `ident` the identity id: ids 0 and `ident` are swapped, all others unchanged."""
+    if ident == 0:
+        return oid
+    if oid == 0:
+        return ident
+    if oid == ident:
+        return 0
+    return oid
+
+
+def with_identity_id(desc, ident):
+    """Chain-list descriptor with the identity operator carrying id `ident` instead of 0."""
+    if ident == 0:
+        return desc
+    d = dict(desc)
+    d['chains'] = [dict(c, oids=[swap_id(o, ident) for o in c['oids']]) for c in desc['chains']]
+    return d
+
+
+def tree_with_identity_id(tdesc, ident):
+    if ident == 0:
+        return tdesc
+
+    def rec(node):
+        return {'q': node['q'], 'ch': [[swap_id(o, ident), c, rec(ch)] for o, c, ch in node['ch']]}
+    return {'istart': tdesc['istart'], 'root': rec(tdesc['root'])}
+
+
+def opmap_with_identity_id(opmap, ident):
+    return {swap_id(k, ident): v for k, v in opmap.items()}
+
+
 def build_chains(desc):
     out = []
     for k, c in enumerate(desc['chains']):
